@@ -19,7 +19,10 @@ Print Assumptions C10_snapshot_means.
 
 (* For every history h of persisted operations on any number of channels (creation, init, sign,
    add-signature valid or not, enable x3, update, discard, forced update, all phase setters,
-   progression, in any order and phase; wop_ok only asks that the states handed in can be encoded),
+   progression, in any order and phase, and any number of restarts WRestart in between: the process
+   comes up with a new PersistRestorer on the same store, every machine is rebuilt from what the
+   restorer yields and used further through the new persister; wop_ok only asks that the states handed
+   in can be encoded),
    every next operation o and every crash point k (a prefix of the atomic writes of o: before the
    first Put/Batch.Apply, between any two, after the last): restoring any channel yields the snapshot
    the channel had before o or the one it has after o ("not found" for a channel that is not live) —
@@ -34,6 +37,15 @@ Theorem C10_crash_restore : forall h o,
     (k = length ws -> restore_chan (apply_atomics s (firstn k ws)) id = view W' id).
 Proof. exact C10_crash_restore_l. Qed.
 Print Assumptions C10_crash_restore.
+
+(* A restart loses nothing: the registry rebuilt from the store alone is exactly the registry of live
+   machines before the restart (own index, parameters, phase, both transactions, every signature slot,
+   peers and parent of every channel) and nothing is written. Histories go on from there, so the two
+   theorems around this one cover every crash point of every operation after any number of restarts. *)
+Theorem C10_restart_restores_everything : forall h, forallb wop_ok h = true ->
+  wstep (fst (wrun h)) (snd (wrun h)) WRestart = (fst (wrun h), OK, []).
+Proof. exact C10_restart_l. Qed.
+Print Assumptions C10_restart_restores_everything.
 
 (* In particular no signature belonging to an earlier staged state is ever restored with a later one:
    at every crash point every restored staging signature sits in the slot of a participant and
@@ -96,6 +108,25 @@ Example C10_nonvacuous :
       | _ => False end
   end.
 Proof. vm_compute. repeat split; reflexivity. Qed.
+
+(* the same after a restart in the middle: sign, restart, discard, restart, stage another update *)
+Definition xHr : list wop := firstn 8 xH ++ [WRestart; WOp xid ODiscard; WRestart].
+Example C10_nonvacuous_restart :
+  forallb wop_ok xHr = true /\ In WRestart xHr /\
+  (* the restart happens while the staged update carries the own signature *)
+  match restore_chan (snd (wrun (firstn 9 xHr))) xid with
+  | ROk rc => rc_sigs rc = [Some (SigOf 1 (enc_state (xS 1 50 50))); None] | _ => False end /\
+  match wstep (fst (wrun xHr)) (snd (wrun xHr)) xO with
+  | (W', x, ws) =>
+      x = OK /\ length ws = 1%nat /\
+      match restore_chan (apply_atomics (snd (wrun xHr)) (firstn 0 ws)) xid with
+      | ROk rc => rc_phase rc = Acting /\ rc_stg rc = None /\ rc_sigs rc = [None; None]
+      | _ => False end /\
+      match restore_chan (apply_atomics (snd (wrun xHr)) (firstn 1 ws)) xid with
+      | ROk rc => rc_phase rc = Signing /\ rc_stg rc = Some (xS 1 10 90) /\ rc_sigs rc = [None; None]
+      | _ => False end
+  end.
+Proof. vm_compute. repeat split; try reflexivity. do 8 right. left. reflexivity. Qed.
 
 (* a signed staging is restored with its signature (the hypothesis of C10_no_stale_signature is met) *)
 Example C10_nonvacuous_signed :
